@@ -2,6 +2,7 @@
 import fi_rules as F
 import cowrite
 import generic_lints
+import hazard_lints
 import predicates
 import twins
 import triggers
@@ -22,6 +23,7 @@ def run(facts, tier):
         ("couplings", lambda fa: cowrite.obligations(fa, ['frequent_items_sketch', 'reverse_purge_hash_map']), 8, "fields that every mutator updates together (counters, extremes, cached values) are still updated together"),
         ("emptiness predicate support", lambda fa: predicates.obligations(fa, ['frequent_items_sketch']), 3, "the emptiness predicate still consults every field it depended on in the reviewed tree (spec/predicates.json)"),
         ("tautologies", lambda fa: generic_lints.tautologies(fa, ('fi/',)), 2, "no comparison / assignment / min-max with two identical operands, no if-else with identical arms"),
+        ("hazards", lambda fa: hazard_lints.hazards(fa, ('fi/',)), 2, "no 64-bit value silently narrowed at a call of a library function, no numeric_limits<floating>::min() as a lowest value, no random engine constructed inside a loop, no read of a moved-from parameter, no unguarded unsigned `x - c` loop bound (reviewed instances in spec/hazards.json)"),
         ("duplicate operands", lambda fa: generic_lints.duplicate_conjuncts(fa, ('fi/',)), 2, "no logical chain tests the same operand twice (copy-paste of the wrong peer)"),
         ("moves from lvalue operands", lambda fa: generic_lints.moves_from_lvalue_operands(fa, ['fi']), 1, "in the lvalue instantiation of a forwarding-reference operand nothing is std::move-d out of the operand (conditional_forward copies there): a sketch passed to be read keeps its items / summaries"),
         ("overload twins", lambda fa: twins.overload_twins(fa, ('fi/',)), 1, "const& and && overloads of one operation have identical bodies modulo std::move/forward"),
